@@ -284,4 +284,28 @@ def Instr.rename (f : String → String) : Instr K → Instr K
 
 def Decls.rename (f : String → String) (Γ : Decls) : Decls := Γ.map fun (n, t) => (f n, t)
 
+/-- the region names an operand / instruction mentions (for the renaming theorem's hypothesis) -/
+def ArithOperand.names : ArithOperand → List String
+  | .mref n => [n]
+  | _ => []
+def CmpOperand.names : CmpOperand → List String
+  | .mref n => [n]
+  | _ => []
+def BinOperand.names : BinOperand → List String
+  | .mref n => [n]
+  | _ => []
+def Instr.names : Instr K → List String
+  | .realArg _ e => e.addrs.map (·.name)
+  | .arithmetic d s => d :: s.names
+  | .comparison d l r => d :: l :: r.names
+  | .binaryLogic d s => d :: s.names
+  | .unaryLogic _ x => [x]
+  | .move d s => d :: s.names
+  | .exchange l r => [l, r]
+  | .load d s o => [d, s, o]
+  | .store d o s => d :: o :: s.names
+  | .other => []
+/-- the declared region names -/
+def Decls.keys (Γ : Decls) : List String := Γ.map Prod.fst
+
 end QV.C30
